@@ -19,6 +19,59 @@ fn main() {
         } }
         return;
     }
+    if args.len() >= 2 && args[1] == "findsm3" {
+        // one-off helper (results are committed as constants in suites/sm3.rs and RE-CLASSIFIED by the specification on every run): 64-byte first
+        // blocks for which, at the start of some round j >= 16 of the first compression, two of the registers fed to FF (A, B, C) or to GG (E, F, G)
+        // coincide, or a message word W_j / W'_j is zero.  Straight transcription of GB/T 32905 used as a search predicate only.
+        fn p0(x: u32) -> u32 { x ^ x.rotate_left(9) ^ x.rotate_left(17) }
+        fn p1(x: u32) -> u32 { x ^ x.rotate_left(15) ^ x.rotate_left(23) }
+        fn probe(block: &[u8; 64]) -> u32 {
+            let mut w = [0u32; 68];
+            for i in 0..16 { w[i] = u32::from_be_bytes([block[4 * i], block[4 * i + 1], block[4 * i + 2], block[4 * i + 3]]); }
+            for j in 16..68 { w[j] = p1(w[j - 16] ^ w[j - 9] ^ w[j - 3].rotate_left(15)) ^ w[j - 13].rotate_left(7) ^ w[j - 6]; }
+            let (mut a, mut b, mut c, mut d, mut e, mut f, mut g, mut h) = (0x7380166fu32, 0x4914b2b9u32, 0x172442d7u32, 0xda8a0600u32, 0xa96f30bcu32, 0x163138aau32, 0xe38dee4du32, 0xb0fb0e4eu32);
+            let mut hit = 0u32;
+            for j in 0..64usize {
+                if j >= 16 {
+                    if a == b { hit |= 1; } if b == c { hit |= 2; } if a == c { hit |= 4; }
+                    if e == f { hit |= 8; } if f == g { hit |= 16; } if e == g { hit |= 32; }
+                    if w[j] == 0 { hit |= 64; } if w[j] ^ w[j + 4] == 0 { hit |= 128; }
+                }
+                let t: u32 = if j < 16 { 0x79cc4519 } else { 0x7a879d8a };
+                let ss1 = a.rotate_left(12).wrapping_add(e).wrapping_add(t.rotate_left((j % 32) as u32)).rotate_left(7);
+                let ss2 = ss1 ^ a.rotate_left(12);
+                let (ff, gg) = if j < 16 { (a ^ b ^ c, e ^ f ^ g) } else { ((a & b) | (a & c) | (b & c), (e & f) | (!e & g)) };
+                let tt1 = ff.wrapping_add(d).wrapping_add(ss2).wrapping_add(w[j] ^ w[j + 4]);
+                let tt2 = gg.wrapping_add(h).wrapping_add(ss1).wrapping_add(w[j]);
+                d = c; c = b.rotate_left(9); b = a; a = tt1; h = g; g = f.rotate_left(19); f = e; e = p0(tt2);
+            }
+            hit
+        }
+        let nthreads = 16u64;
+        let found = std::sync::Arc::new(std::sync::Mutex::new(std::collections::BTreeMap::<u32, String>::new()));
+        let mut hs = vec![];
+        for tid in 0..nthreads {
+            let found = found.clone();
+            hs.push(std::thread::spawn(move || {
+                let mut block = [0u8; 64];
+                for (i, b) in b"gm-rs verification: SM3 block with an internal coincidence..".iter().enumerate() { block[i] = *b; }
+                let mut ctr: u64 = tid << 40;
+                loop {
+                    block[56..64].copy_from_slice(&ctr.to_be_bytes());
+                    let hit = probe(&block);
+                    if hit != 0 {
+                        let mut f = found.lock().unwrap();
+                        for bit in 0..8 { if hit & (1 << bit) != 0 && !f.contains_key(&(1 << bit)) { f.insert(1 << bit, hex::encode(block)); println!("type {} {}", 1 << bit, hex::encode(block)); } }
+                        if f.len() == 8 { return; }
+                    }
+                    ctr += 1;
+                    if ctr & 0xffffff == 0 && found.lock().unwrap().len() == 8 { return; }
+                }
+            }));
+        }
+        for h in hs { let _ = h.join(); }
+        return;
+    }
     if args.len() >= 3 && args[1] == "findk" {
         // one-off helper: search ephemeral scalars whose [k]G has `zeros` leading zero bytes in x / y (used to pre-compute driver constants)
         let zeros: usize = args[2].parse().unwrap();
